@@ -64,7 +64,7 @@ Section StoreProofs.
   Proof.
     intros s o u Hne. destruct o as [v t|v cs|v|k v line ch]; simpl in *.
     - apply lookup_set_other. exact Hne.
-    - destruct cs as [|t cs]; simpl; [reflexivity|]. apply lookup_set_other. exact Hne.
+    - destruct cs as [|c r]; simpl; [reflexivity|]. apply lookup_set_other. exact Hne.
     - apply lookup_remove_other. exact Hne.
     - destruct (lookup v s) as [t|]; [|reflexivity]. destruct (locate t k line ch); reflexivity.
   Qed.
@@ -91,12 +91,12 @@ Section StoreProofs.
       intros v Hv. simpl in Hv. destruct (Nat.eqb_spec u v) as [He|Hne].
       + subst v. rewrite lookup_set_same. discriminate.
       + rewrite (lookup_set_other v u t s Hne). apply Hinv. exact Hv.
-    - apply andb_true_iff in Hc. destruct Hc as [Hc1 Hc]. apply andb_true_iff in Hc1.
-      destruct Hc1 as [Hm Hcs]. destruct cs as [|t cs]; [discriminate|]. simpl.
-      intros [Hx|Hx]; [discriminate|]. revert Hx. apply (IH opened); [|exact Hc].
-      intros v Hv. destruct (Nat.eq_dec u v) as [He|Hne].
-      + subst v. rewrite lookup_set_same. discriminate.
-      + rewrite (lookup_set_other v u t s Hne). apply Hinv. exact Hv.
+    - apply andb_true_iff in Hc. destruct Hc as [Hm Hc]. destruct cs as [|c r]; simpl.
+      + intros [Hx|Hx]; [discriminate|]. revert Hx. apply (IH opened); assumption.
+      + intros [Hx|Hx]; [discriminate|]. revert Hx. apply (IH opened); [|exact Hc].
+        intros v Hv. destruct (Nat.eq_dec u v) as [He|Hne].
+        * subst v. rewrite lookup_set_same. discriminate.
+        * rewrite (lookup_set_other v u (last r c) s Hne). apply Hinv. exact Hv.
     - apply andb_true_iff in Hc. destruct Hc as [Hm Hc]. simpl.
       intros [Hx|Hx]; [discriminate|]. revert Hx. apply (IH (del u opened)); [|exact Hc].
       intros v Hv. apply mem_del in Hv. destruct Hv as [Hne Hv].
@@ -116,132 +116,84 @@ Section StoreProofs.
 
   (* ---------------------------------------------------------------- (ii) answers from the latest text *)
 
-  Section Pick.
-    Variable pick : text -> list text -> text.
+  (* what a server that follows the history alone would send *)
+  Definition expected (past : history) (o : op) : out A :=
+    match o with
+    | Open u t => Publish u (analyse t)
+    | Change u cs => match cs with [] => Silent | c :: r => Publish u (analyse (last r c)) end
+    | Close u => Silent
+    | Request k u line ch =>
+        match latest past u with
+        | None => Crash
+        | Some t => match locate t k line ch with
+                    | Some l => Answer k u (analyse t) l
+                    | None => Crash
+                    end
+        end
+    end.
 
-    (* what a server that follows the history alone would send *)
-    Definition expected (past : history) (o : op) : out A :=
-      match o with
-      | Open u t => Publish u (analyse t)
-      | Change u cs => match cs with [] => Crash | c :: r => Publish u (analyse (pick c r)) end
-      | Close u => Silent
-      | Request k u line ch =>
-          match latest_with pick past u with
-          | None => Crash
-          | Some t => match locate t k line ch with
-                      | Some l => Answer k u (analyse t) l
-                      | None => Crash
-                      end
-          end
-      end.
+  Fixpoint spec_run (past : history) (h : history) : list (out A) :=
+    match h with [] => [] | o :: r => expected past o :: spec_run (past ++ [o]) r end.
 
-    Fixpoint spec_run (past : history) (h : history) : list (out A) :=
-      match h with [] => [] | o :: r => expected past o :: spec_run (past ++ [o]) r end.
+  Lemma latest_snoc : forall past o u, latest (past ++ [o]) u = upd u (latest past u) o.
+  Proof. intros past o u. unfold latest. rewrite fold_left_app. reflexivity. Qed.
 
-    (* the server's choice among the entries of a change is `pick` *)
-    Definition picks (h : history) : Prop :=
-      Forall (fun o => match o with
-                       | Change _ [] => False
-                       | Change _ (c :: r) => pick c r = c
-                       | _ => True end) h.
-
-    Lemma latest_snoc : forall past o u,
-      latest_with pick (past ++ [o]) u = upd_with pick u (latest_with pick past u) o.
-    Proof. intros past o u. unfold latest_with. rewrite fold_left_app. reflexivity. Qed.
-
-    Lemma run_eq_spec_from : forall h past s,
-      (forall u, lookup u s = latest_with pick past u) -> picks h -> run s h = spec_run past h.
-    Proof.
-      induction h as [|o h IH]; intros past s Hinv Hp; simpl; [reflexivity|].
-      inversion Hp as [|o' h' Ho Hh]; subst o' h'.
-      assert (Hnext : forall u, lookup u (fst (step s o)) = latest_with pick (past ++ [o]) u).
-      { intro u. rewrite latest_snoc.
-        destruct o as [v t|v cs|v|k v line ch].
-        - change (lookup u (set v t s) = (if v =? u then Some t else latest_with pick past u)).
-          destruct (Nat.eqb_spec v u) as [He|Hne].
-          + subst v. apply lookup_set_same.
-          + rewrite (lookup_set_other u v t s Hne). apply Hinv.
-        - destruct cs as [|c r]; [contradiction|].
-          change (lookup u (set v c s) = (if v =? u then Some (pick c r) else latest_with pick past u)).
-          destruct (Nat.eqb_spec v u) as [He|Hne].
-          + subst v. rewrite lookup_set_same, Ho. reflexivity.
-          + rewrite (lookup_set_other u v c s Hne). apply Hinv.
-        - change (lookup u (remove v s) = (if v =? u then None else latest_with pick past u)).
-          destruct (Nat.eqb_spec v u) as [He|Hne].
-          + subst v. apply lookup_remove_same.
-          + rewrite (lookup_remove_other u v s Hne). apply Hinv.
-        - rewrite request_keeps_state. apply Hinv. }
-      f_equal; [|apply IH; assumption].
-      destruct o as [v t|v cs|v|k v line ch]; simpl.
-      - reflexivity.
-      - destruct cs as [|c r]; [contradiction|]. simpl. rewrite Ho. reflexivity.
-      - reflexivity.
-      - rewrite <- Hinv. destruct (lookup v s) as [t|]; [|reflexivity].
-        destruct (locate t k line ch); reflexivity.
-    Qed.
-
-    Theorem run_eq_spec : forall h, picks h -> run [] h = spec_run [] h.
-    Proof. intros h Hp. apply run_eq_spec_from; [reflexivity|exact Hp]. Qed.
-
-    Lemma spec_run_length : forall h past, length (spec_run past h) = length h.
-    Proof. induction h as [|o h IH]; intro past; simpl; [reflexivity|]. rewrite IH. reflexivity. Qed.
-
-    Lemma spec_run_nth : forall pre past o rest,
-      nth_error (spec_run past (pre ++ o :: rest)) (length pre) = Some (expected (past ++ pre) o).
-    Proof.
-      induction pre as [|p pre IH]; intros past o rest; simpl.
-      - rewrite app_nil_r. reflexivity.
-      - rewrite IH. rewrite <- app_assoc. reflexivity.
-    Qed.
-  End Pick.
-
-  Lemma single_change_picks_last : forall h, single_change h = true -> picks pick_last h.
+  Lemma run_eq_spec_from : forall h past s,
+    (forall u, lookup u s = latest past u) -> run s h = spec_run past h.
   Proof.
-    intros h Hs. unfold single_change in Hs. rewrite forallb_forall in Hs. apply Forall_forall.
-    intros o Ho. specialize (Hs o Ho). destruct o as [v t|v cs|v|k v line ch]; try exact I.
-    destruct cs as [|c [|d r]]; try discriminate. reflexivity.
+    induction h as [|o h IH]; intros past s Hinv; simpl; [reflexivity|].
+    assert (Hnext : forall u, lookup u (fst (step s o)) = latest (past ++ [o]) u).
+    { intro u. rewrite latest_snoc.
+      destruct o as [v t|v cs|v|k v line ch].
+      - change (lookup u (set v t s) = (if v =? u then Some t else latest past u)).
+        destruct (Nat.eqb_spec v u) as [He|Hne].
+        + subst v. apply lookup_set_same.
+        + rewrite (lookup_set_other u v t s Hne). apply Hinv.
+      - destruct cs as [|c r].
+        + change (lookup u s = (if v =? u then latest past u else latest past u)).
+          destruct (v =? u); apply Hinv.
+        + change (lookup u (set v (last r c) s) = (if v =? u then Some (last r c) else latest past u)).
+          destruct (Nat.eqb_spec v u) as [He|Hne].
+          * subst v. apply lookup_set_same.
+          * rewrite (lookup_set_other u v (last r c) s Hne). apply Hinv.
+      - change (lookup u (remove v s) = (if v =? u then None else latest past u)).
+        destruct (Nat.eqb_spec v u) as [He|Hne].
+        + subst v. apply lookup_remove_same.
+        + rewrite (lookup_remove_other u v s Hne). apply Hinv.
+      - rewrite request_keeps_state. apply Hinv. }
+    f_equal; [|apply IH; assumption].
+    destruct o as [v t|v cs|v|k v line ch]; simpl.
+    - reflexivity.
+    - destruct cs as [|c r]; reflexivity.
+    - reflexivity.
+    - rewrite <- Hinv. destruct (lookup v s) as [t|]; [|reflexivity].
+      destruct (locate t k line ch); reflexivity.
   Qed.
 
-  Lemma conformant_from_picks_first : forall h opened, conformant_from opened h = true -> picks pick_first h.
+  (* the whole output sequence of EVERY history - any number of entries per change, inside the
+     protocol or not - is the one read off the history with `latest` *)
+  Theorem run_is_latest : forall h, run [] h = spec_run [] h.
+  Proof. intro h. apply run_eq_spec_from. reflexivity. Qed.
+
+  Lemma spec_run_nth : forall pre past o rest,
+    nth_error (spec_run past (pre ++ o :: rest)) (length pre) = Some (expected (past ++ pre) o).
   Proof.
-    induction h as [|o h IH]; intros opened Hc; [constructor|].
-    destruct o as [v t|v cs|v|k v line ch]; simpl in Hc.
-    - apply andb_true_iff in Hc. destruct Hc as [_ Hc].
-      constructor; [exact I|eapply IH; exact Hc].
-    - apply andb_true_iff in Hc. destruct Hc as [Hc1 Hc].
-      apply andb_true_iff in Hc1. destruct Hc1 as [_ Hcs].
-      constructor; [|eapply IH; exact Hc]. destruct cs; [discriminate|reflexivity].
-    - apply andb_true_iff in Hc. destruct Hc as [_ Hc].
-      constructor; [exact I|eapply IH; exact Hc].
-    - apply andb_true_iff in Hc. destruct Hc as [_ Hc].
-      constructor; [exact I|eapply IH; exact Hc].
+    induction pre as [|p pre IH]; intros past o rest; simpl.
+    - rewrite app_nil_r. reflexivity.
+    - rewrite IH. rewrite <- app_assoc. reflexivity.
   Qed.
-
-  (* the whole output sequence is the one read off the history with `latest` *)
-  Theorem run_is_latest : forall h,
-    single_change h = true -> run [] h = spec_run pick_last [] h.
-  Proof. intros h Hs. apply run_eq_spec. apply single_change_picks_last. exact Hs. Qed.
-
-  (* without the single-entry condition the same holds with the FIRST entry of every change *)
-  Theorem run_is_latest_first : forall h,
-    conformant h = true -> run [] h = spec_run pick_first [] h.
-  Proof. intros h Hc. apply run_eq_spec. apply (conformant_from_picks_first h []). exact Hc. Qed.
-
-  Lemma single_change_app : forall a b, single_change (a ++ b) = single_change a && single_change b.
-  Proof. intros a b. apply forallb_app. Qed.
 
   (* every request is answered, from the analysis of exactly the latest text of its document *)
   Theorem request_answered_from_latest : forall past k u line ch rest,
     let h := past ++ Request k u line ch :: rest in
-    conformant h = true -> single_change h = true ->
+    conformant h = true ->
     exists t l, latest past u = Some t /\ locate t k line ch = Some l
                 /\ nth_error (run [] h) (length past) = Some (Answer k u (analyse t) l).
   Proof.
-    intros past k u line ch rest h Hc Hs.
+    intros past k u line ch rest h Hc.
     pose proof (conformant_never_crashes h Hc) as Hnc.
-    rewrite (run_is_latest h Hs) in *. unfold h in *.
-    pose proof (spec_run_nth pick_last past [] (Request k u line ch) rest) as Hn. simpl in Hn.
-    fold (latest past u) in Hn.
+    rewrite (run_is_latest h) in *. unfold h in *.
+    pose proof (spec_run_nth past [] (Request k u line ch) rest) as Hn. simpl in Hn.
     destruct (latest past u) as [t|] eqn:Hl.
     - destruct (locate t k line ch) as [l|] eqn:Hloc.
       + exists t, l. repeat split; assumption.
@@ -250,59 +202,55 @@ Section StoreProofs.
   Qed.
 
   (* every notification that carries a text is answered by the publication computed from that text,
-     which is the latest text of the document from then on *)
+     which is the latest text of the document from then on; of several entries that is the last *)
   Theorem open_published_from_latest : forall past u t rest,
-    let h := past ++ Open u t :: rest in
-    single_change h = true ->
-    nth_error (run [] h) (length past) = Some (Publish u (analyse t))
+    nth_error (run [] (past ++ Open u t :: rest)) (length past) = Some (Publish u (analyse t))
     /\ latest (past ++ [Open u t]) u = Some t.
   Proof.
-    intros past u t rest h Hs. rewrite (run_is_latest h Hs). unfold h. split.
-    - pose proof (spec_run_nth pick_last past [] (Open u t) rest) as Hn. exact Hn.
-    - unfold latest. rewrite latest_snoc. simpl. rewrite Nat.eqb_refl. reflexivity.
+    intros past u t rest. rewrite run_is_latest. split.
+    - exact (spec_run_nth past [] (Open u t) rest).
+    - rewrite latest_snoc. simpl. rewrite Nat.eqb_refl. reflexivity.
   Qed.
 
-  Theorem change_published_from_latest : forall past u t rest,
-    let h := past ++ Change u [t] :: rest in
-    single_change h = true ->
-    nth_error (run [] h) (length past) = Some (Publish u (analyse t))
-    /\ latest (past ++ [Change u [t]]) u = Some t.
+  Theorem change_published_from_latest : forall past u c r rest,
+    nth_error (run [] (past ++ Change u (c :: r) :: rest)) (length past)
+      = Some (Publish u (analyse (last r c)))
+    /\ latest (past ++ [Change u (c :: r)]) u = Some (last r c).
   Proof.
-    intros past u t rest h Hs. rewrite (run_is_latest h Hs). unfold h. split.
-    - pose proof (spec_run_nth pick_last past [] (Change u [t]) rest) as Hn. exact Hn.
-    - unfold latest. rewrite latest_snoc. simpl. rewrite Nat.eqb_refl. reflexivity.
+    intros past u c r rest. rewrite run_is_latest. split.
+    - exact (spec_run_nth past [] (Change u (c :: r)) rest).
+    - rewrite latest_snoc. simpl. rewrite Nat.eqb_refl. reflexivity.
   Qed.
+
+  (* a change without entries changes nothing and nothing is sent *)
+  Theorem empty_change_is_silent : forall s u, step s (Change u []) = (s, Silent).
+  Proof. reflexivity. Qed.
 
   (* ---------------------------------------------------------------- (iv) exactly one publication *)
 
   Definition publishes_for (u : uri) (o : out A) : bool :=
     match o with Publish v _ => v =? u | _ => false end.
   Definition carries_text_for (u : uri) (o : op) : bool :=
-    match o with Open v _ => v =? u | Change v _ => v =? u | _ => false end.
+    match o with
+    | Open v _ => v =? u
+    | Change v (_ :: _) => v =? u
+    | _ => false
+    end.
 
-  Lemma publications_from : forall h opened s u,
-    conformant_from opened h = true ->
+  (* position by position, for every history and state: the i-th output is a publication for u
+     exactly when the i-th message is an open of u or a change of u that has an entry - one
+     publication per text-carrying notification, none elsewhere *)
+  Theorem one_publication_per_text : forall h s u,
     map (publishes_for u) (run s h) = map (carries_text_for u) h.
   Proof.
-    induction h as [|o h IH]; intros opened s u Hc; simpl; [reflexivity|].
-    destruct o as [v t|v cs|v|k v line ch]; simpl in Hc.
-    - apply andb_true_iff in Hc. destruct Hc as [_ Hc].
-      simpl. f_equal. eapply IH. exact Hc.
-    - apply andb_true_iff in Hc. destruct Hc as [Hc1 Hc].
-      apply andb_true_iff in Hc1. destruct Hc1 as [_ Hcs].
-      destruct cs as [|c r]; [discriminate|]. simpl. f_equal. eapply IH. exact Hc.
-    - apply andb_true_iff in Hc. destruct Hc as [_ Hc].
-      simpl. f_equal. eapply IH. exact Hc.
-    - apply andb_true_iff in Hc. destruct Hc as [_ Hc].
-      simpl. destruct (lookup v s) as [t|]; simpl; [|f_equal; eapply IH; exact Hc].
-      destruct (locate t k line ch); simpl; f_equal; eapply IH; exact Hc.
+    induction h as [|o h IH]; intros s u; simpl; [reflexivity|].
+    f_equal; [|apply IH].
+    destruct o as [v t|v cs|v|k v line ch]; simpl.
+    - reflexivity.
+    - destruct cs; reflexivity.
+    - reflexivity.
+    - destruct (lookup v s) as [t|]; [|reflexivity]. destruct (locate t k line ch); reflexivity.
   Qed.
-
-  (* position by position: the i-th output is a publication for u exactly when the i-th message is
-     an open or change of u - one publication per text-carrying notification, none elsewhere *)
-  Theorem one_publication_per_text : forall h u,
-    conformant h = true -> map (publishes_for u) (run [] h) = map (carries_text_for u) h.
-  Proof. intros h u Hc. apply (publications_from h [] [] u Hc). Qed.
 
   Theorem run_length : forall h s, length (run s h) = length h.
   Proof. induction h as [|o h IH]; intro s; simpl; [reflexivity|]. rewrite IH. reflexivity. Qed.
@@ -313,12 +261,9 @@ Section StoreProofs.
     lookup u s = None -> step s (Request k u line ch) = (s, Crash).
   Proof. intros s k u line ch Hl. simpl. rewrite Hl. reflexivity. Qed.
 
-  Theorem empty_change_crashes : forall s u, step s (Change u []) = (s, Crash).
-  Proof. reflexivity. Qed.
-
   (* a change for a document that is not open does NOT crash: it opens it *)
-  Theorem change_without_document_opens : forall s u t cs,
-    step s (Change u (t :: cs)) = step s (Open u t).
+  Theorem change_without_document_opens : forall s u c r,
+    step s (Change u (c :: r)) = step s (Open u (last r c)).
   Proof. reflexivity. Qed.
 
   (* a second open replaces the text; closing a closed document is silent *)
@@ -336,38 +281,27 @@ Definition t2 : text := [97]%N.
 Definition t3 : text := [98; 10]%N.
 Definition run_id := run text (fun t => t).
 
-(* a request for a closed (here: never opened, and: closed again) document kills the server *)
+(* what still fails: a request for a closed (never opened, or closed again) document kills the server *)
 Lemma request_on_closed_document_refuted :
   run_id [] [Request Hover 7 0 0] = [Crash]
   /\ run_id [] [Open 7 t1; Close 7; Request Completion 7 0 0] = [Publish 7 t1; Silent; Crash].
 Proof. vm_compute. split; reflexivity. Qed.
 
-Lemma empty_content_changes_refuted :
-  run_id [] [Open 7 t1; Change 7 []] = [Publish 7 t1; Crash].
-Proof. vm_compute. reflexivity. Qed.
-
-(* two entries in one change: the protocol's latest text is the last one (t3), the server
-   publishes and afterwards answers from the first (t2) *)
-Lemma multi_entry_change_uses_first_refuted :
-  let h := [Open 7 t1; Change 7 [t2; t3]; Request Hover 7 0 0] in
-  conformant h = true /\ single_change h = false
-  /\ latest h 7 = Some t3 /\ latest_first h 7 = Some t2
-  /\ run_id [] h = [Publish 7 t1; Publish 7 t2; Answer Hover 7 t2 (AtOffset 0)].
-Proof. vm_compute. repeat split; reflexivity. Qed.
-
-(* non-vacuity: a conformant single-change history over two documents with close and reopen *)
+(* non-vacuity: a conformant history over two documents with close and reopen, a change with two
+   entries (the last one, t3, is published and answered from) and a change without entries *)
 Definition ex_history : history :=
-  [Open 1 t1; Request Hover 1 0 2; Open 2 t2; Change 1 [t3]; Request Completion 2 5 5;
-   Request Formatting 1 0 0; Close 1; Request GotoDef 2 0 1; Open 1 t1; Request References 1 1 1;
-   Request Formatting 1 0 0; Close 2; Close 1].
+  [Open 1 t1; Request Hover 1 0 2; Open 2 t2; Change 1 [t2; t3]; Request Completion 2 5 5;
+   Change 1 []; Request Formatting 1 0 0; Close 1; Request GotoDef 2 0 1; Open 1 t1;
+   Request References 1 1 1; Request Formatting 1 0 0; Close 2; Close 1].
 
-Example ex_history_hypotheses : conformant ex_history = true /\ single_change ex_history = true.
-Proof. vm_compute. split; reflexivity. Qed.
+Example ex_history_hypotheses : conformant ex_history = true.
+Proof. vm_compute. reflexivity. Qed.
 
 Example ex_history_run :
   run_id [] ex_history =
   [Publish 1 t1; Answer Hover 1 t1 (AtOffset 3); Publish 2 t2; Publish 1 t3;
-   Answer Completion 2 t2 (AtOffset 1); Answer Formatting 1 t3 (WholeText (0, 0) (1, 0)); Silent;
+   Answer Completion 2 t2 (AtOffset 1); Silent; Answer Formatting 1 t3 (WholeText (0, 0) (1, 0)); Silent;
    Answer GotoDef 2 t2 (AtOffset 1); Publish 1 t1; Answer References 1 t1 (AtOffset 10);
-   Answer Formatting 1 t1 (WholeText (0, 0) (1, 1)); Silent; Silent].
-Proof. vm_compute. reflexivity. Qed.
+   Answer Formatting 1 t1 (WholeText (0, 0) (1, 1)); Silent; Silent]
+  /\ latest [Open 1 t1; Change 1 [t2; t3]; Change 1 []] 1 = Some t3.
+Proof. vm_compute. split; reflexivity. Qed.
